@@ -4,6 +4,9 @@
 package main
 
 import (
+	"io"
+	"compress/gzip"
+	"bytes"
 	"fmt"
 	"os"
 	"path/filepath"
@@ -350,6 +353,9 @@ func checkMessageType(h *hz.H, fname string, md protoreflect.MessageDescriptor, 
 			viol("registry-go-type", fname, name, fmt.Sprintf("GlobalTypes maps %s to Go type %v; expected *%s", name, goT, wantName), "")
 		}
 		fresh := reflect.New(goT.Elem()).Interface().(proto.Message)
+		if bad := legacyPath(fresh, "Descriptor", md, false); bad != "" {
+			viol("legacy-descriptor-path", fname, name, fmt.Sprintf("Go type %v: %s", goT, bad), "")
+		}
 		m := fresh.ProtoReflect()
 		if m.Descriptor() != md {
 			viol("descriptor-identity", fname, name, fmt.Sprintf("(%v).ProtoReflect().Descriptor() is not the registry's descriptor of %s (it describes %s)", goT, name, m.Descriptor().FullName()), "")
@@ -413,6 +419,63 @@ func checkFieldTypes(h *hz.H, fname string, md protoreflect.MessageDescriptor, v
 	}
 }
 
+// legacyPath checks the deprecated Descriptor() / EnumDescriptor() method of the plain Go API: (gzipped file descriptor,
+// index path). The bytes must decode to the file's descriptor and the path must lead to this very declaration.
+func legacyPath(v interface{}, method string, want protoreflect.Descriptor, isEnum bool) string {
+	m := reflect.ValueOf(v).MethodByName(method)
+	if !m.IsValid() || m.Type().NumIn() != 0 || m.Type().NumOut() != 2 {
+		return "" // not generated: nothing to check
+	}
+	out := m.Call(nil)
+	gz, ok1 := out[0].Interface().([]byte)
+	path, ok2 := out[1].Interface().([]int)
+	if !ok1 || !ok2 {
+		return ""
+	}
+	zr, err := gzip.NewReader(bytes.NewReader(gz))
+	if err != nil {
+		return fmt.Sprintf("%s() returns bytes that are not gzip data: %v", method, err)
+	}
+	raw, err := io.ReadAll(zr)
+	if err != nil {
+		return fmt.Sprintf("%s() returns a corrupt gzip stream: %v", method, err)
+	}
+	fdp := &descriptorpb.FileDescriptorProto{}
+	if err := proto.Unmarshal(raw, fdp); err != nil {
+		return fmt.Sprintf("%s() returns bytes that do not decode as a file descriptor: %v", method, err)
+	}
+	if fdp.GetName() != want.ParentFile().Path() {
+		return fmt.Sprintf("%s() returns the descriptor of file %q, want %q", method, fdp.GetName(), want.ParentFile().Path())
+	}
+	if len(path) == 0 {
+		return method + "() returns an empty index path"
+	}
+	name := fdp.GetPackage()
+	var msgs []*descriptorpb.DescriptorProto = fdp.MessageType
+	var enums []*descriptorpb.EnumDescriptorProto = fdp.EnumType
+	for i, ix := range path {
+		last := i == len(path)-1
+		if last && isEnum {
+			if ix < 0 || ix >= len(enums) {
+				return fmt.Sprintf("%s() index path %v leaves the descriptor at step %d", method, path, i)
+			}
+			name += "." + enums[ix].GetName()
+			break
+		}
+		if ix < 0 || ix >= len(msgs) {
+			return fmt.Sprintf("%s() index path %v leaves the descriptor at step %d", method, path, i)
+		}
+		name += "." + msgs[ix].GetName()
+		enums = msgs[ix].EnumType
+		msgs = msgs[ix].NestedType
+	}
+	name = strings.TrimPrefix(name, ".")
+	if name != string(want.FullName()) {
+		return fmt.Sprintf("%s() index path %v leads to %s, not to %s", method, path, name, want.FullName())
+	}
+	return ""
+}
+
 func checkEnum(h *hz.H, fname string, ed protoreflect.EnumDescriptor, viol violFn) {
 	name := string(ed.FullName())
 	h.Eval(true, hz.Hash("C19enum", name))
@@ -439,6 +502,11 @@ func checkEnum(h *hz.H, fname string, ed protoreflect.EnumDescriptor, viol violF
 			}
 			if e.Number() != n {
 				viol("enum-number", fname, name, fmt.Sprintf("%s: New(%d).Number() = %d", name, n, e.Number()), "")
+			}
+			if n == nums[0] {
+				if bad := legacyPath(e, "EnumDescriptor", ed, true); bad != "" {
+					viol("legacy-descriptor-path", fname, name, fmt.Sprintf("Go enum %v: %s", goT, bad), "")
+				}
 			}
 			if e.Descriptor() != ed || e.Type().Descriptor() != ed {
 				viol("enum-descriptor", fname, name, fmt.Sprintf("Go enum %v reports descriptor %s; the schema says %s", goT, e.Descriptor().FullName(), name), "")
